@@ -47,7 +47,7 @@ func NewReflector[S, A any](t hseq.Type[S]) Reflector[A] {
 	ft := t.Type
 	fv := reflect.TypeOf(new(A)).Elem()
 
-	if ft.String() == fv.String() && ft.AssignableTo(fv) {
+	if ft == fv {
 		return &lens[S, A]{t}
 	}
 
